@@ -10,7 +10,7 @@ def main():
     src_id = a[0]
     sid = a[a.index("--as") + 1] if "--as" in a else src_id
     breaks = a[a.index("--breaks") + 1] if "--breaks" in a else src_id
-    src = f"/tmp/mut_{src_id}_out"
+    src = a[a.index("--src") + 1] if "--src" in a else f"/tmp/mut_{src_id}_out"
     dst = os.path.join(os.path.dirname(os.path.abspath(__file__)), "..", "seeded", sid)
     os.makedirs(dst, exist_ok=True)
     shutil.copy(f"{src}/patch.diff", f"{dst}/patch.diff")
